@@ -61,6 +61,11 @@ pub(super) fn postprocess(query: SqlQuery, ctx: &mut Context) -> SqlQuery {
         .to_string()
     });
 
+    #[cfg(prql_verif)]
+    if true {
+        return verif_assign_names(query, ctx);
+    }
+
     assign_names(query, ctx)
 }
 
@@ -488,6 +493,75 @@ impl PqMapper<RelationExpr, RelationExpr, (), ()> for SortingInference<'_> {
 }
 
 /// Makes sure all relation instances have assigned names. Tries to infer from table references.
+/// assign_names, observed: the names before and after the pass
+#[cfg(prql_verif)]
+fn verif_assign_names(query: SqlQuery, ctx: &mut Context) -> SqlQuery {
+    let verif_hints: HashMap<RIId, Option<String>> = (ctx.anchor.relation_instances.iter())
+        .map(|(riid, inst)| (*riid, inst.table_ref.name.clone()))
+        .collect();
+
+    let query = assign_names(query, ctx);
+
+    crate::debug::verif::emit("names", || {
+        // the names given: of the table declarations, and of the relation instances of every SELECT
+        // (alias before the pass, table read, name after it)
+        fn rel(
+            r: &RelationExpr,
+            cur: usize,
+            out: &mut Vec<Vec<serde_json::Value>>,
+            hints: &HashMap<RIId, Option<String>>,
+            ctx: &Context,
+        ) {
+            if let RelationExprKind::SubQuery(sub) = &r.kind {
+                select(sub, out, hints, ctx);
+            }
+            let inst = &ctx.anchor.relation_instances[&r.riid];
+            out[cur].push(serde_json::json!({"riid": r.riid, "hint": hints.get(&r.riid).cloned().flatten(),
+                "source": inst.table_ref.source, "name": inst.table_ref.name}));
+        }
+        fn select(
+            r: &SqlRelation,
+            out: &mut Vec<Vec<serde_json::Value>>,
+            hints: &HashMap<RIId, Option<String>>,
+            ctx: &Context,
+        ) {
+            let SqlRelation::AtomicPipeline(pipeline) = r else {
+                return;
+            };
+            let cur = out.len();
+            out.push(Vec::new());
+            for t in pipeline {
+                match t {
+                    SqlTransform::From(r) => rel(r, cur, out, hints, ctx),
+                    SqlTransform::Join { with, .. } => rel(with, cur, out, hints, ctx),
+                    SqlTransform::Union { bottom, .. }
+                    | SqlTransform::Except { bottom, .. }
+                    | SqlTransform::Intersect { bottom, .. } => rel(bottom, cur, out, hints, ctx),
+                    _ => {}
+                }
+            }
+        }
+        let mut selects = Vec::new();
+        for cte in &query.ctes {
+            match &cte.kind {
+                CteKind::Normal(r) => select(r, &mut selects, &verif_hints, ctx),
+                CteKind::Loop { initial, step } => {
+                    select(initial, &mut selects, &verif_hints, ctx);
+                    select(step, &mut selects, &verif_hints, ctx);
+                }
+            }
+        }
+        select(&query.main_relation, &mut selects, &verif_hints, ctx);
+        let decls = (ctx.anchor.table_decls.values())
+            .map(|d| (d.id, d.name.as_ref().map(|n| n.to_string())))
+            .sorted_by_key(|d| d.0.get())
+            .collect_vec();
+        serde_json::json!({"decls": decls, "selects": selects}).to_string()
+    });
+
+    query
+}
+
 fn assign_names(query: SqlQuery, ctx: &mut Context) -> SqlQuery {
     // generate CTE names, make sure they don't clash
     let decls = ctx.anchor.table_decls.values_mut();
